@@ -5,7 +5,7 @@ cd /verif; OUT=work/replay_seeds.log; : > $OUT
 for d in seeded/*/; do
   n=$(basename $d); P=$(echo $n | cut -d- -f1)
   git -C /repo status --short -- src | grep -q . && { echo "TREE DIRTY" >> $OUT; exit 2; }
-  if git -C /repo apply $d/patch.diff 2>/dev/null; then
+  if git -C /repo apply /verif/$d/patch.diff 2>/dev/null; then
     python3 check.py $P --tier quick > /tmp/replay_$n.out 2>&1; rc=$?
     git -C /repo checkout -- .
     echo "$n rc=$rc violations=$(grep -c '^VIOLATION' /tmp/replay_$n.out) $(grep '^VIOLATION' /tmp/replay_$n.out | sed 's/.*replay=[^ ]* //' | tr '\n' ';' | cut -c1-160)" >> $OUT
